@@ -76,6 +76,7 @@ func crashHistory(h *HistGen, n int) []J {
 func streamC05(c *Ctx) {
 	c.Rule = "(i) close/reopen after every prefix of random write histories on bbolt and badger-on-disk (in every other history some transactions are abandoned before or at their commit by an injected store fault and the history goes on with the same handle): logical state and raw key dump equal to the model's, invariant oracle on the reopened store; " +
 		"(ii) a child process executes a scripted history of batched inserts, bulk updates/deletes and index create/drop, acknowledging each returned operation on a pipe; the parent kills it (SIGKILL) at a uniformly random instant, reopens the directory and requires the raw dump to be the model's state after j operations for j in {acknowledged, acknowledged+1} and the invariant oracle to hold. " +
+		"(iv) every store call of DropCollection / DropIndex / CreateIndex / CreateCollectionByQuery / Delete on a collection with two indexes abandoned in turn, then reopen: the state before the operation, then the operation succeeds. " +
 		"(iii) a child process importing a file of 4300 documents (more than 4 MiB) is killed at a uniformly random instant of the import's measured duration: the reopened store holds nothing or everything of the collection. " +
 		"non-trivial = distinct (history, kill instant) where at least one operation had been acknowledged and the history was not finished"
 	dr := StartDriver(c.DriverBin)
@@ -138,6 +139,47 @@ func streamC05(c *Ctx) {
 		if !bigBatchNoTrace(c, be) {
 			return
 		}
+	}
+	// (iv) every store call of the multi-step catalog operations abandoned in turn (the transaction is dropped at that
+	// call, as a crash there would drop it), then close and reopen: the state is the one before the operation - never a
+	// mixture such as a collection that lost some of its indexes - and the same operation then succeeds
+	for _, be := range []string{"bbolt", "badger-disk"} {
+		im := NewImpl(be, c.Scratch)
+		ops := []J{
+			opLine("dropCollection", J{"coll": hx("ab")}),
+			opLine("dropIndex", J{"coll": hx("ab"), "field": hx("x")}),
+			opLine("createIndex", J{"coll": hx("ab"), "field": hx("z")}),
+			opLine("createCollectionByQuery", J{"coll": hx("cp"), "q": J{"coll": hx("ab"), "crit": J{"cmp": []interface{}{"ge", hx("x"), J{"lit": encValue(int64(1))}}}}}),
+			opLine("delete", J{"q": J{"coll": hx("ab"), "crit": J{"cmp": []interface{}{"ge", hx("x"), J{"lit": encValue(int64(1))}}}}}),
+		}
+		for oi, op := range ops {
+			for k := 0; k < 60; k++ {
+				lines := []J{opLine("createCollection", J{"coll": hx("ab")}), opLine("createIndex", J{"coll": hx("ab"), "field": hx("x")}), opLine("createIndex", J{"coll": hx("ab"), "field": hx("y")})}
+				docs := []interface{}{}
+				for j := 0; j < 4; j++ {
+					docs = append(docs, encDoc(map[string]interface{}{"_id": fixedId(j + 1), "x": int64(j), "y": int64(3 - j), "z": int64(j % 2)}))
+				}
+				faulted := cloneJ(op)
+				faulted["fault"] = k
+				lines = append(lines, opLine("insert", J{"coll": hx("ab"), "docs": docs}), J{"k": "dump"}, faulted, J{"k": "dump"}, J{"k": "reopen"}, J{"k": "dump"},
+					opLine("listIndexes", J{"coll": hx("ab")}), opLine("count", J{"q": J{"coll": hx("ab")}}), cloneJ(op), J{"k": "dump"}, J{"k": "reopen"}, J{"k": "dump"})
+				o := runHistory(dr, im, lines, HistOpts{})
+				recordHistory(c, lines, &o, be)
+				c.Count("abandoned-at-call:" + be)
+				if o.Index >= 0 {
+					if reportHistoryProblem(c, dr, im, lines, &o, be, HistOpts{}, "abandoned-call") {
+						im.Destroy()
+						return
+					}
+				}
+				// past the last store call of the operation the fault no longer fires: the enumeration of this operation is complete
+				if fi := 5; fi < len(o.Results) && !o.Results[fi].Fired {
+					break
+				}
+				_ = oi
+			}
+		}
+		im.Destroy()
 	}
 	// (iii) kill during one large import (more than 4 MiB): nothing or everything after reopening
 	for _, be := range []string{"bbolt", "badger-disk"} {
